@@ -76,19 +76,25 @@ type c02Case struct {
 	Conf    world.SPConf `json:"sp"`
 	Clock   string       `json:"clock"`
 	Deflate bool         `json:"deflate"`
+	// Nested: the message's own signature sits inside an Extensions child of the signed
+	// element rather than directly under it (its Reference still names the element's ID)
+	Nested bool `json:"nested_signature,omitempty"`
 }
 
 var c02Memo sync.Map
 
 // c02Message renders (memoised) the message for a kind and signer. All message-level time
 // bounds are wide so that only the certificate window matters.
-func c02Message(kind string, si int, deflate bool) string {
-	id := fmt.Sprintf("%s/%d/%v", kind, si, deflate)
+func c02Message(kind string, si int, deflate bool, nested bool) string {
+	id := fmt.Sprintf("%s/%d/%v/%v", kind, si, deflate, nested)
 	if v, ok := c02Memo.Load(id); ok {
 		return v.(string)
 	}
 	s := c02Signers[si]
 	sign := idp.SignSpec{Key: s.Key, KeyInfo: s.KeyInfo, Tamper: s.Tamper}
+	if nested {
+		sign.Nested = "Extensions"
+	}
 	wideA, wideB := idp.TS(world.T0.Add(-3*time.Hour)), idp.TS(world.T0.Add(3*time.Hour))
 	var out string
 	switch kind {
@@ -169,7 +175,7 @@ func c02ExecOn(c c02Case, live *saml2.SAMLServiceProvider) (keys []string, detai
 		// the second assertion is signed K2+C2 (wider window): both must be honoured
 		hon = hon && c02Honoured(c02Signers[1], c.Conf.Store, clock)
 	}
-	msg := c02Message(c.Kind, c.Signer, c.Deflate)
+	msg := c02Message(c.Kind, c.Signer, c.Deflate, c.Nested)
 	sp := live
 	if sp == nil {
 		sp = c.Conf.Build()
@@ -265,7 +271,7 @@ func c02Replay(raw json.RawMessage) ([]string, string) {
 }
 
 func c02Run(r *mc.Run) {
-	r.Rule = "full product kind(6) x signer state(12) x store(7) x clock position(11: both ends of two certificate windows, +-1s) x presentation(2); a case is non-trivial when the message passed decoding and reached signature processing (every case here does: all are well-formed signed messages); distinct = distinct (kind,signer,store,clock,presentation)"
+	r.Rule = "full product kind(6) x signer state(12) x store(7) x clock position(11: both ends of two certificate windows, +-1s) x presentation(2) x signature placement(2: directly under the signed element, nested in an Extensions child); a case is non-trivial when the message passed decoding and reached signature processing (every case here does: all are well-formed signed messages); distinct = distinct (kind,signer,store,clock,presentation)"
 	r.Assume("goxmldsig canonicalisers (used by the harness signer) are correct", "RSA/ECDSA unforgeable")
 	var cases []c02Case
 	n, complete := mc.Enumerate(-1, r.Expired, func(c *mc.Chooser) {
@@ -274,8 +280,9 @@ func c02Run(r *mc.Run) {
 		st := c.Choose("store", len(c02Stores))
 		ck := c.Choose("clock", len(c02Clocks))
 		d := c.Bool("deflate")
+		nested := c.Bool("nested-signature")
 		cases = append(cases, c02Case{Kind: c02Kinds[k], Signer: s, SName: c02Signers[s].Name,
-			Conf: world.SPConf{Store: c02Stores[st], ClockNs: int64(c02Clocks[ck].Off)}, Clock: c02Clocks[ck].Name, Deflate: d})
+			Conf: world.SPConf{Store: c02Stores[st], ClockNs: int64(c02Clocks[ck].Off)}, Clock: c02Clocks[ck].Name, Deflate: d, Nested: nested})
 	})
 	if !complete {
 		r.Cap("enumeration stopped by deadline")
@@ -286,7 +293,7 @@ func c02Run(r *mc.Run) {
 		c := cases[i]
 		keys, detail := c02Exec(c)
 		r.Eval(1)
-		r.Nontrivial(fmt.Sprintf("%s/%d/%v/%s/%v", c.Kind, c.Signer, c.Conf.Store, c.Clock, c.Deflate))
+		r.Nontrivial(fmt.Sprintf("%s/%d/%v/%s/%v/%v", c.Kind, c.Signer, c.Conf.Store, c.Clock, c.Deflate, c.Nested))
 		hon := "not-honoured"
 		if strings.Contains(detail, "honoured(model)=true") {
 			hon = "honoured"
@@ -313,7 +320,7 @@ func c02Histories(r *mc.Run, cases []c02Case) {
 	groups := map[string][]c02Case{}
 	var order []string
 	for _, c := range cases {
-		k := fmt.Sprintf("%s/%d/%v", c.Kind, c.Signer, c.Deflate)
+		k := fmt.Sprintf("%s/%d/%v/%v", c.Kind, c.Signer, c.Deflate, c.Nested)
 		if _, ok := groups[k]; !ok {
 			order = append(order, k)
 		}
